@@ -17,7 +17,7 @@ open LexVerif.Model.Dragonbox (FTy i32)
 
 /-- which `truncate_and_round` the code under test has: `false` = /repo HEAD, `true` = after
 `fixes/C14-pow2-digit-options.diff` -/
-def pow2DigitFix : Bool := false
+def pow2DigitFix : Bool := true
 
 /-- `usize::saturating_mul` -/
 def satMul (a b : Nat) : Nat := min (a * b) (2 ^ 64 - 1)
